@@ -5,7 +5,7 @@ cd "$(dirname "$0")"
 mkdir -p _build
 cd _build
 if [ ! -f model.ml ] || [ ../../coq/Extract/Extract.v -nt model.ml ] || [ ../../coq/Model/Core.vo -nt model.ml ] \
-   || [ ../../coq/Model/Entry.vo -nt model.ml ] || [ ../../coq/Model/Peg.vo -nt model.ml ] || [ ../../coq/Model/LR.vo -nt model.ml ] || [ ../../coq/Model/LRT.vo -nt model.ml ] || [ ../../coq/Model/Results.vo -nt model.ml ] || [ ../../coq/Proofs/EqDec.vo -nt model.ml ] \
+   || [ ../../coq/Model/Entry.vo -nt model.ml ] || [ ../../coq/Model/Peg.vo -nt model.ml ] || [ ../../coq/Model/LR.vo -nt model.ml ] || [ ../../coq/Model/LRT.vo -nt model.ml ] || [ ../../coq/Model/Transform.vo -nt model.ml ] || [ ../../coq/Model/Results.vo -nt model.ml ] || [ ../../coq/Proofs/EqDec.vo -nt model.ml ] \
    || [ ../driver.ml -nt driver ] || [ ! -f driver ]; then
   timeout 300 coqc -Q ../../coq PP ../../coq/Extract/Extract.v > extract.log 2>&1 || { cat extract.log; exit 1; }
   rm -f ../../coq/Extract/Extract.vo ../../coq/Extract/Extract.glob ../../coq/Extract/.Extract.aux ../../coq/Extract/Extract.vok ../../coq/Extract/Extract.vos
